@@ -113,3 +113,21 @@ Proof. vm_compute. reflexivity. Qed.
 Example C20_help_view :
   help_output specs [tk "prog"] true root = help_output specs [tk "prog"] true root_rev.
 Proof. vm_compute. reflexivity. Qed.
+
+
+(* the hypothesis of the end-to-end theorem: the reversed tree is the same tree in another order *)
+From GO Require Import Proofs.PermParse Proofs.PermRev.
+
+Ltac nodup_keys := vm_compute; repeat (constructor; [intros H; repeat (destruct H as [H|H]; [discriminate H|]); exact H|]); constructor.
+Ltac wfk_any :=
+  apply wfk_intro; [nodup_keys | nodup_keys |
+    intros k a H; vm_compute in H; repeat (destruct H as [H|H]; [inversion H; subst; clear H; wfk_any|]); contradiction].
+
+Example C20_wfk_hyp : wfk root.
+Proof. unfold root. vm_compute. wfk_any. Qed.
+
+Example C20_end_to_end_fires : forall md ro args,
+  observe (parse pf0 md false ro specs root store0 args) = observe (parse pf0 md false ro specs root_rev store0 args).
+Proof.
+  intros md ro args. apply observe_order_independent. apply nsim_rev_node. exact C20_wfk_hyp.
+Qed.
